@@ -6,6 +6,7 @@ import (
 	"encoding/json"
 	"fmt"
 	"os"
+	"runtime"
 	"runtime/debug"
 	"sort"
 	"strconv"
@@ -78,7 +79,9 @@ func RunTape(t *testing.T, p Prop, tape *sim.Tape) (res *Result) {
 	res = &Result{Faults: map[string]int{}, Probes: map[string]int{}, Counters: map[string]int{}}
 	defer func() {
 		if r := recover(); r != nil {
-			res.Trouble = fmt.Sprintf("panic around bubble: %v\n%s", r, debug.Stack())
+			buf := make([]byte, 1<<16)
+			buf = buf[:runtime.Stack(buf, true)]
+			res.Trouble = fmt.Sprintf("panic around bubble: %v\n%s\nALL GOROUTINES:\n%s", r, debug.Stack(), buf)
 		}
 	}()
 	synctest.Test(t, func(t *testing.T) {
